@@ -18,6 +18,12 @@ class Case:
             nbath=p.get("nbath", 2), nstretch_max=p.get("nstretch_max", 2), nta=p.get("nta", 0), ta_on_grid=p.get("ta_on_grid"),
             noise=p.get("noise", 0.0), nmatch=p.get("nmatch", 0), match_reverse=p.get("match_reverse"), front_only=p.get("front_only", False), ta_on_ref=p.get("ta_on_ref", False), power_loss=p.get("power_loss", 0.02), segs=[tuple(x) for x in p["segs"]] if p.get("segs") else None,
         )
+        if p.get("ta_reversed") and len(self.f.trans_att) > 1:
+            # the splices are handed to the API in descending order (a valid input: the trans_att coordinate keeps the caller's order)
+            self.f.trans_att = list(self.f.trans_att)[::-1]
+            for k in ("ta", "taf", "tab"):
+                if k in self.f.truth and len(self.f.truth[k]):
+                    self.f.truth[k] = self.f.truth[k][::-1]
         self.var_mode = p.get("var_mode", "float")
         self.names = ["st_var", "ast_var"] + (["rst_var", "rast_var"] if p["double"] else [])
         self.fix = p.get("fix", None)  # None | 'gamma' | 'dalpha' | 'alpha' | 'alpha+gamma' | 'gamma+dalpha' (single ended)
@@ -42,13 +48,15 @@ class Case:
             kw["fix_gamma"] = (f.gamma, v)
         if "dalpha" in toks:
             kw["fix_dalpha"] = (f.truth["dalpha"], v)
+        def prof(n):   # the supplied variance of a fixed alpha may differ from location to location
+            return v * (0.25 + ((np.arange(n) * 7) % 5) / 2.0) if self.p.get("fix_var_vary") else np.full(n, v)
         if "alpha" in toks:
             if f.double:
                 ix0 = int(np.min(f.ds.dts.ufunc_per_section(sections=f.sections, x_indices=True, calc_per="all")))
                 A = f.truth["A"] - f.truth["A"][ix0]  # alpha is zero at the first reference location by definition
-                kw["fix_alpha"] = (A.copy(), np.full(A.size, v))
+                kw["fix_alpha"] = (A.copy(), prof(A.size))
             else:
-                kw["fix_alpha"] = (f.truth["dalpha"] * f.x, np.full(f.x.size, v))
+                kw["fix_alpha"] = (f.truth["dalpha"] * f.x, prof(f.x.size))
         return kw
 
     def kwargs(self, **over):
@@ -73,7 +81,7 @@ def _random_params(rng, double, quick=True, **force):
         "span": float(rng.choice([10.0, 25.0, 100.0, 400.0])), "irregular": bool(rng.random() < 0.4),
         "nbath": int(rng.integers(2, 4)) if nx >= 10 else 2, "nstretch_max": int(rng.integers(1, 3)),
         "nta": int(rng.choice([0, 0, 1, 2])) if nx >= 10 else 0, "noise": float(rng.choice([0.0, 0.0, 0.002, 0.01, 0.05])),
-        "var_mode": str(rng.choice(VAR_MODES)), "nmatch": 0,
+        "var_mode": str(rng.choice(VAR_MODES)), "nmatch": 0, "ta_reversed": bool(rng.random() < 0.35),
     }
     p.update(force)
     return p
